@@ -17,7 +17,7 @@ Definition trunc_f (x : float) : option Z :=
     if ((- 2 ^ 63 <=? z') && (z' <? 2 ^ 63))%Z then Some z' else None
   | _ => None
   end.
-Definition ticks_f : nat -> nat -> float -> option Z := ticks_model trunc_f.
+Definition ticks_f : nat -> nat -> float -> tickres := ticks_model trunc_f.
 
 Definition conv_tbl (tbl : list (string * convres float)) (s : string) : convres float :=
   match assoc s tbl with Some r => r | None => CMissing end.
@@ -56,12 +56,12 @@ Inductive c18case :=
        (after : value float) (used : list nat) (exc : exc_class)
 | CLeaf (t : leafty) (init : leafval float) (key val : string) (convs : list (string * convres float))
         (after : leafval float) (exc : exc_class)
-| CVec (key val : string) (convs : list (string * convres float)) (size : nat) (elems : list float) (exc : exc_class).
+| CVec (init : list float) (key val : string) (convs : list (string * convres float)) (after : list float) (exc : exc_class).
 
 Inductive c18out :=
 | OSet (v : value float) (used : list nat) (e : option (nat * err))
 | OLeaf (l : leafval float) (e : option err)
-| OVec (n : nat) (xs : list float) (e : option err)
+| OVec (xs : list float) (e : option err)
 | ONoSchema.
 
 Definition model18 (c : c18case) : c18out :=
@@ -72,17 +72,10 @@ Definition model18 (c : c18case) : c18out :=
     | None => ONoSchema
     end
   | CLeaf t init key val convs _ _ => let (l, e) := set_leaf (conv_tbl convs) ticks_f t init key val in OLeaf l e
-  | CVec key val convs _ _ _ => let '(n, xs, e) := set_vec (conv_tbl convs) key val in OVec n xs e
+  | CVec init key val convs _ _ => let (xs, e) := set_vec (conv_tbl convs) init key val in OVec xs e
   end.
 
-Fixpoint prefix_agree (xs ys : list float) : bool :=
-  match xs, ys with
-  | [], _ => true
-  | x :: xs', y :: ys' => fexact x y && prefix_agree xs' ys'
-  | _, [] => false
-  end.
-
-(* cases in which the model says "undefined behaviour" (double -> int64 overflow in a duration) are not compared *)
+(* cases in which the model says "outside the model" (EDurUB: the range guard passed but the conversion still overflows) are not compared *)
 Definition chk18 (c : c18case) : bool :=
   match c, model18 c with
   | CSet _ _ _ _ _ after used exc, OSet v u e =>
@@ -91,8 +84,7 @@ Definition chk18 (c : c18case) : bool :=
     else negb (is_gap e') && value_eqb v after && list_agree Nat.eqb u used && exc_eqb (class_of e') exc
   | CLeaf _ _ _ _ _ after exc, OLeaf l e =>
     if is_ub e then true else negb (is_gap e) && leaf_eqb l after && exc_eqb (class_of e) exc
-  | CVec _ _ _ size elems exc, OVec n xs e =>
-    negb (is_gap e) && Nat.eqb n size && prefix_agree xs elems && exc_eqb (class_of e) exc
-    && (match e with None => Nat.eqb (List.length xs) size | Some _ => true end)
+  | CVec _ _ _ _ after exc, OVec xs e =>
+    negb (is_gap e) && vfexact xs after && exc_eqb (class_of e) exc
   | _, _ => false
   end.
